@@ -3,9 +3,27 @@
    Flocq's Zfloor / Zceil. *)
 From Coq Require Import Reals ZArith List Lia Lra Permutation.
 From Flocq Require Import Core.Raux.
-From SC Require Import Num Grid GridProofs FloatIO FloatGridProofs.
+From SC Require Import Num Grid Grid_gen GridProofs FloatIO FloatGridProofs.
 Import ListNotations.
 Local Open Scope R_scope.
+
+(* 0. THE MODEL IS THE SOURCE.  Grid_gen.v is regenerated on every run from update_dimensions of uspg_4d and uspg_3d,
+   uspg_abstract::get_3d_voxel_index and get_voxel_index (harness/translate_grid.py).  The hand-written functions of Grid.v,
+   on which everything below (and the grids of C06 and C13) rests, are those functions, for every number type and every
+   floor / ceil. *)
+Theorem grid_model_is_what_the_source_says : (grid_translation_ok = true :> bool) /\
+  (forall (T : Type) (N : Num T) (fl ce : T -> Z) (eps s : T) (lo hi : T * T * T),
+     update_dimensions_4d_gen N fl ce eps s lo hi = update_dimensions N ce eps s lo hi /\
+     update_dimensions_3d_gen N fl ce eps s lo hi = update_dimensions N ce eps s lo hi) /\
+  (forall (T : Type) (N : Num T) (fl ce : T -> Z) (g : dims (T:=T)) (p : T * T * T), idx3_gen N fl ce g p = idx3 N fl g p) /\
+  (forall (T : Type) (g : dims (T:=T)) (i : Z * Z * Z), flat_gen g i = flat g i).
+Proof.
+  split; [reflexivity|]. split; [|split].
+  - intros T N fl ce eps s lo hi. destruct lo as [[? ?] ?], hi as [[? ?] ?]. split; reflexivity.
+  - intros T N fl ce g p. destruct g as [[[? ?] ?] [[? ?] ?] ?], p as [[? ?] ?]. reflexivity.
+  - intros T g i. destruct g as [[[? ?] ?] [[? ?] ?] ?], i as [[? ?] ?]. reflexivity.
+Qed.
+Print Assumptions grid_model_is_what_the_source_says.
 
 (* the R instance of the grid functions *)
 Notation dimsR := (update_dimensions NumR Zceil).
